@@ -88,6 +88,7 @@ func (g *GoBackend) Generate(req *plugin.Request, log backend.LogFunc) *plugin.R
 	g.req = req
 	g.res = plugin.NewResponse()
 	g.log = log
+	g.err = nil // the backend object is reused: an earlier failure must not fail this run
 	g.prepareUtilities()
 	if g.utils.Features().TrimIDL {
 		g.log.Warn("You Are Using IDL Trimmer")
